@@ -124,6 +124,24 @@ impl<'a> RuleDeclaredEnumeratedValues<'a> {
 impl Visitor<Diagnostic> for RuleDeclaredEnumeratedValues<'_> {
     type Value = ();
 
+    // An enumeration that is declared with the variable: the initial value is one of
+    // the values listed right there
+    fn visit_enumerated_values_initializer(
+        &mut self,
+        init: &EnumeratedValuesInitializer,
+    ) -> Result<Self::Value, Diagnostic> {
+        if let Some(value) = &init.initial_value {
+            if !init.values.iter().any(|v| v.value == value.value) {
+                return Err(Diagnostic::problem(
+                    Problem::EnumValueNotDefined,
+                    Label::span(value.span(), "Expected value in enumeration"),
+                )
+                .with_context_id("value", &value.value));
+            }
+        }
+        Ok(())
+    }
+
     fn visit_enumerated_initial_value_assignment(
         &mut self,
         init: &EnumeratedInitialValueAssignment,
